@@ -1,5 +1,28 @@
-use quote::quote;
-use syn::{DeriveInput, Path, Type};
+use quote::{format_ident, quote};
+use syn::{DeriveInput, GenericParam, Ident, Path, Type};
+
+/// The name of the wrapper struct of `create_format_arg`: `Educe__DebugField`, or the first of `Educe__DebugField_`, `Educe__DebugField__`, ... that is neither the type itself nor one of its generic parameters.
+fn debug_field_ident(ast: &DeriveInput) -> Ident {
+    let mut name = String::from("Educe__DebugField");
+
+    // at most one step per name that may be taken
+    for _ in 0..=ast.generics.params.len() {
+        let taken = ast.ident == name
+            || ast.generics.params.iter().any(|param| match param {
+                GenericParam::Type(ty) => ty.ident == name,
+                GenericParam::Const(constant) => constant.ident == name,
+                GenericParam::Lifetime(_) => false,
+            });
+
+        if !taken {
+            break;
+        }
+
+        name.push('_');
+    }
+
+    format_ident!("{}", name)
+}
 
 #[inline]
 pub(crate) fn create_debug_map_builder() -> proc_macro2::TokenStream {
@@ -34,13 +57,15 @@ pub(crate) fn create_format_arg(
     // relevant for this field, which is nontrivial and maybe impossible.
     let (impl_generics, ty_generics, where_clause) = ast.generics.split_for_impl();
 
+    let wrapper = debug_field_ident(ast);
+
     quote!(
         let arg = {
             #[allow(non_camel_case_types)] // We're using __ to help avoid clashes.
-            struct Educe__DebugField<V, M>(V, ::core::marker::PhantomData<M>);
+            struct #wrapper<V, M>(V, ::core::marker::PhantomData<M>);
 
             impl #impl_generics ::core::fmt::Debug
-                for Educe__DebugField<&#field_ty, #ty_ident #ty_generics>
+                for #wrapper<&#field_ty, #ty_ident #ty_generics>
                 #where_clause
             {
                 #[inline]
@@ -49,7 +74,7 @@ pub(crate) fn create_format_arg(
                 }
             }
 
-            Educe__DebugField(#field_expr, ::core::marker::PhantomData::<Self>)
+            #wrapper(#field_expr, ::core::marker::PhantomData::<Self>)
         };
     )
 }
